@@ -426,7 +426,10 @@ def tests(tier):
     from props import c10
     chunked = [Test("chunked_" + t.name, t.strategy, t.run, {k: max(200, v // 4) for k, v in t.n.items()}, CFG)
                for t in c10.tests(tier) if t.name in ("cipher", "mac", "aead", "misc")]
-    return own_tests(tier) + chunked
+    # ... and the placements of input and output buffers that belt.h allows to overlap (props/c11.py: oracle = the disjoint-buffer call)
+    from props import c11
+    placed = [Test("placed_" + t.name, t.strategy, t.run, {k: max(500, v // 8) for k, v in t.n.items()}, CFG) for t in c11.tests(tier) if t.name == "overlap"]
+    return own_tests(tier) + chunked + placed
 
 
 def own_tests(tier):
